@@ -78,6 +78,10 @@ func progWorker(w *vf.Worker) {
 		genHofFamily(a, emit)
 	case "loopvar":
 		genLoopVarFamily(a, emit)
+	case "alias":
+		genAliasFamily(a, emit)
+	case "ctrl":
+		genCtrlFamily(a, emit)
 	case "blocks":
 		genBlocksFamily(a, emit)
 	case "filter":
@@ -126,6 +130,8 @@ func familySpecs(quick bool) []famSpec {
 			{progArgs{Family: "recur", Level: 1}, "prog", 32},
 			{progArgs{Family: "hof", Level: 1}, "prog", 32},
 			{progArgs{Family: "loopvar", Level: 0}, "prog", 32},
+			{progArgs{Family: "alias", Level: 0}, "prog", 32},
+			{progArgs{Family: "ctrl", Level: 0}, "prog", 32},
 			{progArgs{Family: "blocks", Level: 0, Size: 3}, "prog", 64},
 			{progArgs{Family: "filter", Level: 0, Size: 3}, "prog", 32},
 			{progArgs{Family: "chain", Level: 0}, "prog", 32},
@@ -145,6 +151,8 @@ func familySpecs(quick bool) []famSpec {
 		{progArgs{Family: "recur", Level: 1}, "prog", 32},
 		{progArgs{Family: "hof", Level: 1}, "prog", 32},
 		{progArgs{Family: "loopvar", Level: 1}, "prog", 32},
+		{progArgs{Family: "alias", Level: 1}, "prog", 32},
+		{progArgs{Family: "ctrl", Level: 1}, "prog", 64},
 		{progArgs{Family: "blocks", Level: 1, Size: 3}, "prog", 64},
 		{progArgs{Family: "filter", Level: 1, Size: 3}, "prog", 64},
 		{progArgs{Family: "chain", Level: 1}, "prog", 32},
